@@ -1,5 +1,5 @@
 use honeycomb_core::{
-    cmap::{CMap2, DartIdType, OrbitPolicy, VertexIdType},
+    cmap::{CMap2, DartIdType, NULL_DART_ID, OrbitPolicy, VertexIdType},
     geometry::{CoordsFloat, Vertex2},
     stm::{StmClosureResult, Transaction, retry},
 };
@@ -25,10 +25,15 @@ pub fn is_orbit_orientation_consistent<T: CoordsFloat>(
             tmp.push(d?);
         }
 
-        let ref_sign = {
-            let d = tmp[0];
+        let mut ref_sign = None;
+        for &d in &tmp {
             let b1d = map.beta_transac::<1>(t, d)?;
             let b1b1d = map.beta_transac::<1>(t, b1d)?;
+            if b1d == NULL_DART_ID || b1b1d == NULL_DART_ID {
+                // the dart belongs to an open cell: there is no triangle to check, and the
+                // null dart's vertex is not one whose coordinates will ever be defined
+                continue;
+            }
             let vid1 = map.vertex_id_transac(t, b1d)?;
             let vid2 = map.vertex_id_transac(t, b1b1d)?;
             let v1 = if let Some(v) = map.read_vertex(t, vid1)? {
@@ -42,29 +47,11 @@ pub fn is_orbit_orientation_consistent<T: CoordsFloat>(
                 retry()?
             };
 
-            let crossp = Vertex2::cross_product_from_vertices(&new_v, &v1, &v2);
-            crossp.signum()
-        };
-        for &d in &tmp[1..] {
-            let b1d = map.beta_transac::<1>(t, d)?;
-            let b1b1d = map.beta_transac::<1>(t, b1d)?;
-            let vid1 = map.vertex_id_transac(t, b1d)?;
-            let vid2 = map.vertex_id_transac(t, b1b1d)?;
-            let v1 = if let Some(v) = map.read_vertex(t, vid1)? {
-                v
-            } else {
-                retry()?
-            };
-            let v2 = if let Some(v) = map.read_vertex(t, vid2)? {
-                v
-            } else {
-                retry()?
-            };
-
-            let crossp = Vertex2::cross_product_from_vertices(&new_v, &v1, &v2);
-
-            if ref_sign != crossp.signum() {
-                return Ok(false);
+            let sign = Vertex2::cross_product_from_vertices(&new_v, &v1, &v2).signum();
+            match ref_sign {
+                None => ref_sign = Some(sign),
+                Some(s) if s != sign => return Ok(false),
+                Some(_) => {}
             }
         }
     } else {
